@@ -115,6 +115,12 @@ def _grid_ints(dim, salt):
 
 
 def grid(tier):
+    for gap, J in ((200, 90), (60, -140)):
+        yield {"kind": "tdredfield", "gap": gap, "J": J, "where": "outside"}
+    yield from _grid_programs(tier)
+
+
+def _grid_programs(tier):
     """Deterministic small programs: every object kind and constructor flag, created outside and inside a context of
     every kind of context operator, read inside one and two contexts and after leaving them (so that no kind depends on
     the luck of the seed)."""
@@ -763,7 +769,46 @@ class Machine(object):
             raise pending
 
 
+def _check_td_redfield(case, ctx):
+    """a time-dependent Redfield tensor obtained in operator form, converted to tensor form later, then presented in
+    another basis: the same numbers as the tensor obtained in tensor form"""
+    import quantarhei as qr
+    from .. import gens
+    from ..core import guarded
+    spec = {"E": [12000, 12000 + case["gap"], 12150], "J": [[0, case["J"], 30], [case["J"], 0, -70], [30, -70, 0]],
+            "d": [[1.0, 0.0, 0.0]] * 3, "T": 250,
+            "bath": [{"ftype": "OverdampedBrownian", "reorg": 30 + 15 * i, "cortime": 40 + 10 * i, "matsubara": 8}
+                     for i in range(3)],
+            "time": [0.0, 40, 2.0]}
+    ctx.label("td-redfield-tensor", "convert:" + case["where"])
+    ctx.mark_nontrivial(True)
+
+    def run():
+        ta = qr.TimeAxis(0.0, 40, 2.0)
+        Ro, ho = gens.make_aggregate(qr, spec).get_RelaxationTensor(ta, relaxation_theory="standard_Redfield",
+                                                                     time_dependent=True, as_operators=True)
+        Rt, ht = gens.make_aggregate(qr, spec).get_RelaxationTensor(ta, relaxation_theory="standard_Redfield",
+                                                                     time_dependent=True)
+        if case["where"] == "outside":
+            Ro.convert_2_tensor()
+        with qr.eigenbasis_of(ho):
+            if case["where"] == "inside-after-read":
+                Ro.Km
+                Ro.convert_2_tensor()
+            a_in = numpy.array(Ro.data)
+        with qr.eigenbasis_of(ht):
+            b_in = numpy.array(Rt.data)
+        return a_in, b_in, numpy.array(Ro.data), numpy.array(Rt.data)
+    ok, r = guarded(ctx, "td-redfield", run, case["where"])
+    if ok:
+        sc = max(1e-300, float(numpy.max(numpy.abs(r[1]))))
+        ctx.close("inside-presentation", r[0], r[1], rtol=1e-9, scale=sc, where="td-redfield/converted-" + case["where"])
+        ctx.close("restored-after-exit", r[2], r[3], rtol=1e-9, scale=sc, where="td-redfield/converted-" + case["where"])
+
+
 def check_case(case, ctx):
+    if case.get("kind") == "tdredfield":
+        return _check_td_redfield(case, ctx)
     import quantarhei as qr
     m = Machine(case, ctx, qr)
     from quantarhei.qm import Operator
